@@ -228,6 +228,10 @@ pub struct A8<const N: usize>(pub [u8; N]);
 #[derive(Clone, Copy)]
 #[repr(C, align(16))]
 pub struct A16<const N: usize>(pub [u8; N]);
+/// over-aligned beyond 16: only addressable correctly when `maximum_alignment` is at least 64
+#[derive(Clone, Copy)]
+#[repr(C, align(64))]
+pub struct A64<const N: usize>(pub [u8; N]);
 #[derive(Clone, Copy)]
 #[repr(C, align(8))]
 pub struct Z8;
@@ -261,10 +265,11 @@ macro_rules! for_each_type {
         $m!(14, $crate::arena::Z8);
         $m!(15, $crate::arena::Dropper);
         $m!(16, $crate::arena::ZDropper);
+        $m!(17, $crate::arena::A64<64>);
     };
 }
 
-pub const N_TYPES: usize = 17;
+pub const N_TYPES: usize = 18;
 pub const TY_DROPPER: u8 = 15;
 
 pub fn ty_info(i: u8) -> TyInfo {
@@ -381,6 +386,7 @@ impl<const N: usize> MenuType for A2<N> {}
 impl<const N: usize> MenuType for A4<N> {}
 impl<const N: usize> MenuType for A8<N> {}
 impl<const N: usize> MenuType for A16<N> {}
+impl<const N: usize> MenuType for A64<N> {}
 impl MenuType for () {}
 impl MenuType for Z8 {}
 impl MenuType for ZDropper {
@@ -501,7 +507,7 @@ thread_local! {
 }
 
 /// Every second file open of this process goes through the `*_with_path_builder` form of the constructor.
-fn use_path_builder() -> bool {
+pub fn use_path_builder() -> bool {
     OPEN_NO.with(|c| {
         let v = c.get();
         c.set(v + 1);
